@@ -181,6 +181,14 @@ func RunCheck(spec *PropSpec, opts RunOpts) int {
 			inconc = append(inconc, fmt.Sprintf("%s%v: VACUOUS: no path reached a verifReach site", items[i].Func, items[i].Shape))
 		}
 	}
+	if vf := os.Getenv("GOSMT_VIOLOUT"); vf != "" {
+		f, _ := os.Create(vf)
+		for _, v := range viols {
+			b, _ := json.Marshal(v)
+			f.Write(append(b, '\n'))
+		}
+		f.Close()
+	}
 	// native replay: violations (bounded), known hits (one per id), a sample of witnesses
 	maxV := 12
 	if len(viols) > maxV {
